@@ -1,5 +1,5 @@
 """Property id -> module with check(pid, tier, seed) -> core.Run, replay(pid, path), RULE."""
-from . import c03, c04, c05, c06, c07, c10, c15, c16, c17, c19, c20
+from . import c03, c04, c05, c06, c07, c10, c11, c15, c16, c17, c19, c20
 
-REGISTRY = {"C03": c03, "C04": c04, "C05": c05, "C06": c06, "C07": c07, "C10": c10,
+REGISTRY = {"C03": c03, "C04": c04, "C05": c05, "C06": c06, "C07": c07, "C10": c10, "C11": c11,
             "C15": c15, "C16": c16, "C17": c17, "C19": c19, "C20": c20}
